@@ -12,11 +12,14 @@
      - the abstract slice put is old[:s] + new + old[e:], touches nothing outside [s,e) and keeps relative order;
      - every FSTView operation (hand model models/View.v of view.py over the translated fixups) is the corresponding
        Python list operation on the window and leaves the field outside the window untouched, for any healing history.
+     - (models/ArgMarkers.v) the `/` and `*` markers re-derived for a parameter list from the categories of its elements
+       (whatever list a put into arguments._all produced, provided the categories never go down and *vararg / **kwarg occur
+       once): Python's reading of the rendered tokens gives back every parameter in the category it has in the list.
    NOT PROVED (decided by correspondence / oracle cross-check in py/props/C03.py): that the per-node-type handlers
    realise put_slice_spec on the real AST, layout independence and entry-point agreement of the implementation. *)
 From Coq Require Import ZArith List Bool Lia.
 From PF Require Import kernel.PyBase kernel.Container gen.Fixups models.View
-  proofs.FixupsProofs proofs.ContainerProofs proofs.ViewProofs models.Arglikes proofs.ArglikesProofs.
+  proofs.FixupsProofs proofs.ContainerProofs proofs.ViewProofs models.Arglikes proofs.ArglikesProofs models.ArgMarkers proofs.ArgMarkersProofs.
 Import ListNotations.
 
 Theorem C03_index_is_python_index : forall len i, (0 <= len)%Z ->
@@ -178,6 +181,15 @@ Print Assumptions C03_args_guard_passes_iff_everything_touched_is_in_front_of_th
 Theorem C03_args_in_front_of_the_keywords_have_their_merged_index : forall l i, i < lead_a l -> arg_pos l i = Some i /\ nth_error l i = Some A.
 Proof. exact args_in_front_are_merged_prefix. Qed.
 Print Assumptions C03_args_in_front_of_the_keywords_have_their_merged_index.
+
+Theorem C03_parameter_markers_make_python_read_every_parameter_in_its_category : forall l, ok 0 l = true -> parse (render 1 l) = Some l.
+Proof. exact markers_read_back. Qed.
+Print Assumptions C03_parameter_markers_make_python_read_every_parameter_in_its_category.
+
+Theorem C03_parameters_behind_the_positional_only_block_read_back : forall l p, (1 <= p <= 3)%nat -> ok p l = true ->
+  parse_tail (Nat.leb 2 p) (render p l) = Some l.
+Proof. exact tail_ok. Qed.
+Print Assumptions C03_parameters_behind_the_positional_only_block_read_back.
 
 (* non-vacuity: a concrete view with a fixed stop, healed after an external shrink, then edited *)
 Example C03_nonvacuous :
